@@ -506,6 +506,9 @@ func symmetricVerdict(c *an.Ctx, verdict ssa.Value, ret *ssa.Return, px, py *ssa
 			}
 			return "the verdict is an equality that is not an agreement of validity"
 		case token.LEQ, token.LSS:
+		case token.GEQ, token.GTR:
+			// T >= absdiff: the same bound written the other way round
+			bo = &ssa.BinOp{Op: token.LEQ, X: bo.Y, Y: bo.X}
 		default:
 			return "the verdict is not of the form absdiff <= T"
 		}
@@ -581,6 +584,49 @@ func absDiff(c *an.Ctx, d ssa.Value, ret *ssa.Return, px, py *ssa.Parameter) str
 					}
 				}
 				return "negation not selected by `difference < 0`"
+			}
+		}
+	}
+	// (iv) gap := b-a under a<b, else a-b, kept in a variable: every incoming difference is taken in the direction
+	// its own path established as non-negative, or is the complement of such a test (the else side)
+	if len(vals) == 2 {
+		leaves := an.PhiLeaves(d)
+		if len(leaves) == 2 {
+			okAll := true
+			ordered := 0
+			for _, lf := range leaves {
+				a, b, isSub := sub(lf.Val)
+				if !isSub || !oneEach(a, b) {
+					okAll = false
+					continue
+				}
+				// computing hi-lo = a-b: look for lo<hi (true) / hi<lo (false) among the conditions of this path
+				for _, e := range append(append([]an.CondEdge{}, lf.Conds...), an.GuardingEdges(ret)...) {
+					hi, lo := a, b
+					switch cond := e.If.Cond.(type) {
+					case *ssa.BinOp:
+						if (cond.Op == token.LSS || cond.Op == token.LEQ) && ((cond.X == lo && cond.Y == hi && e.Branch) || (cond.X == hi && cond.Y == lo && !e.Branch)) {
+							ordered++
+						}
+						if (cond.Op == token.GTR || cond.Op == token.GEQ) && ((cond.X == hi && cond.Y == lo && e.Branch) || (cond.X == lo && cond.Y == hi && !e.Branch)) {
+							ordered++
+						}
+					case *ssa.Call:
+						n := an.CalleeName(cond)
+						if len(cond.Call.Args) == 2 {
+							x0, x1 := cond.Call.Args[0], cond.Call.Args[1]
+							if n == "(time.Time).Before" && ((x0 == lo && x1 == hi && e.Branch) || (x0 == hi && x1 == lo && !e.Branch)) {
+								ordered++
+							}
+							if n == "(time.Time).After" && ((x0 == hi && x1 == lo && e.Branch) || (x0 == lo && x1 == hi && !e.Branch)) {
+								ordered++
+							}
+						}
+					}
+				}
+			}
+			if okAll && ordered >= 2 {
+				return ""
 			}
 		}
 	}
@@ -789,6 +835,18 @@ func r164(c *an.Ctx) {
 						if b {
 							// `ok = true` is fine where a comparer has just reported ok; otherwise it speaks although nobody did
 							spoke := false
+							// the accumulator itself: phis of the web this value belongs to
+							web := map[ssa.Value]bool{}
+							var collect func(v ssa.Value)
+							collect = func(v ssa.Value) {
+								if ph, isPhi := v.(*ssa.Phi); isPhi && !web[ph] {
+									web[ph] = true
+									for _, e := range ph.Edges {
+										collect(e)
+									}
+								}
+							}
+							collect(r.Results[1])
 							for _, e := range lf.Conds {
 								neg := false
 								cond := e.If.Cond
@@ -796,6 +854,10 @@ func r164(c *an.Ctx) {
 									cond, neg = u.X, true
 								}
 								if an.IsExtractOf(cond, call, 1) && e.Branch != neg {
+									spoke = true
+								}
+								// `ok = ok || applies`: true because the flag was already true
+								if web[cond] && e.Branch != neg {
 									spoke = true
 								}
 							}
